@@ -140,6 +140,20 @@ VARIANTS = {
 }
 VARIANT_NAMES = sorted(VARIANTS)
 
+# events whose execution is aborted by a non-field exception (RuntimeError: a value its scalar
+# cannot serialise), alone or after field errors were already registered for the same event
+ABORTING = {
+    "crash_f": lambda k: _with(k, f="not a float"),
+    "crash_n": lambda k: _with(k, n="not an int"),
+    "v_raise_crash_f": lambda k: _with(k, f="not a float", _raise={"v": ["v failed at %d" % k, {"event": k}]}),
+    "v_raise_crash_n": lambda k: _with(k, n="not an int", _raise={"v": ["v failed at %d" % k, None]}),
+    "many_crash_f": lambda k: _with(k, f="x", on=None, l=[None], _raise={"v": ["x", None], "o": ["y", {"a": [1]}]}),
+    "lo_null_then_crash": lambda k: _with(k, lo=[{"a": 1, "b": None}, {"a": 2, "b": "boom"}, {"a": 3, "b": None}]),
+    "l_crash": lambda k: _with(k, l=[1, "x"], _raise={"v": ["v first", None]}),
+}
+ABORTING_NAMES = sorted(ABORTING)
+VARIANTS.update(ABORTING)
+
 # events that are not {"sub": ...} dicts at all: payload-less and falsy events, bare containers, objects
 RAW_EVENTS = {
     "raw_none": lambda k: None,
@@ -179,6 +193,13 @@ SELECTIONS = [
     "subscription E { e: echo @include(if: true) }",
 ]
 SEL_ECHO, SEL_TICK, SEL_ECHO_ALIAS = 7, 8, 9
+# field errors registered BEFORE the value that cannot be serialised is reached (document order) ...
+SELECTIONS.append("subscription { sub { idx v o { b } on { b } l s f n } }")
+# ... and after it (the abort comes first)
+SELECTIONS.append("subscription { sub { f n v s } }")
+# ... inside list items
+SELECTIONS.append("subscription { sub { idx v lo { a b } l } }")
+SEL_ERR_THEN_ABORT, SEL_ABORT_FIRST, SEL_ABORT_IN_LIST = 10, 11, 12
 assert SELECTIONS[SEL_ECHO] == "subscription { echo }"
 
 # refusals: (label, text, runtime, operation_name, variables, facts)
